@@ -395,6 +395,9 @@ func auditValue(t *Type, rv reflect.Value, dv any, container string, p string, o
 		if !ok {
 			if s, isStr := dv.(string); isStr {
 				if dec, ok2 := decodeJSONString(s); ok2 {
+					if dec == nil && rv.Len() == 0 {
+						return nil // the string holds JSON null: zero slice
+					}
 					arr, ok = dec.([]any)
 				}
 			}
@@ -432,6 +435,9 @@ func auditValue(t *Type, rv reflect.Value, dv any, container string, p string, o
 		if !ok {
 			if s, isStr := dv.(string); isStr {
 				if dec, ok2 := decodeJSONString(s); ok2 {
+					if dec == nil && rv.Len() == 0 {
+						return nil // the string holds JSON null: zero map
+					}
 					mm, ok = dec.(map[string]any)
 				}
 			}
@@ -519,10 +525,17 @@ func auditLeafNumber(k Kind, rv reflect.Value, text, src, p string) *Finding {
 		if rv.String() == text {
 			return nil // textually exact number->string coercion is tolerated
 		}
+		if a, ok := parseRat(text); ok {
+			if b, ok := parseRat(rv.String()); ok && a.Cmp(b) == 0 {
+				return nil // another spelling of the same number
+			}
+		}
 		return finding("inexact:string<-number", "%s: number %s became string %q", p, text, rv.String())
 	case k == Bool:
-		if (text == "1" && rv.Bool()) || (text == "0" && !rv.Bool()) {
-			return nil
+		if a, ok := parseRat(text); ok {
+			if (a.Cmp(big.NewRat(1, 1)) == 0 && rv.Bool()) || (a.Sign() == 0 && !rv.Bool()) {
+				return nil
+			}
 		}
 		return finding("inexact:bool<-number", "%s: number %s became bool %v", p, text, rv.Bool())
 	}
